@@ -442,7 +442,7 @@ def run_pairs(vlib, ctx, model, harness, pairs, tag, chunk=150, workers=4):
             rec["status"], rec["why"] = "model", "extracted impl sign %d differs from extracted spec sign %s" % (core[0], spec)
             continue
         kbad = [(k[0], k[5], mres.get("p%d.%s" % (i, k[0]))) for k in P.ktx
-                if mres.get("p%d.%s" % (i, k[0])) != "%s %s" % (("n" if k[5] is None else hx(k[5])),) * 2]
+                if mres.get("p%d.%s" % (i, k[0])) != "%s %s" % ((("n" if k[5] is None else hx(k[5])),) * 2)]
         if kbad:
             rec["status"], rec["why"] = "model", "publication slot computed by props/_score.py differs from the extracted ktx: %r" % (kbad[0],)
             continue
